@@ -3,7 +3,8 @@ object graph (created without running __init__) whose leaves are symbolic, plus 
 the callees a unit abstracts."""
 import z3
 
-from orquesta import conducting, constants, events, exceptions as exc, machines, statuses as st
+from orquesta import conducting, constants, events, exceptions as exc, machines
+from contracts import specconst as st
 from orquesta.utils import jsonify as json_util
 
 from pyvc import seqlib, sym as S
